@@ -7,6 +7,7 @@ import Mahotas.Proofs.C05Abscissa
 import Mahotas.Proofs.C05Bounds
 import Mahotas.Proofs.C05Rounded
 import Mahotas.Proofs.C05Binary64
+import Mahotas.Generated.Guards
 open Mahotas Mahotas.C05 Mahotas.C04
 
 /-- **C05-T1 (the 1-D pass is the exact lower envelope).** For every integer line `f` of every
@@ -482,3 +483,120 @@ example : 4 * ((5792 : ℕ) : ℚ) ^ 2 * ((sentinel [5793] : ℚ) + ((5792 : ℕ
   have h1 : sentinel [5793] = 33558850 := by decide
   have h2 : sentinel [5234, 5234] = 54789513 := by decide
   rw [h1, h2]; norm_num
+
+/-! ## Round 4 — `gvoronoi` for every rank; which native entry points the wrappers reach -/
+
+/-- **C05-T3 for the model of the code, every rank (`gvoronoi` as repaired in round 4).** `gvoronoiModel` is
+`labeled.flat[orig]` with `orig` tracked by the flat/strided model of `_distance.dt` (`distanceModel`: one call on
+the whole array for a 2-D image, the per-axis loop over `(1, n)` line views of `f` and `orig` for every other rank).
+For every label image of every rank and shape with at least one labelled pixel, the entry at the C-order index of
+every pixel `p` is the label of a labelled pixel `o` at minimum squared Euclidean distance from `p`, and a labelled
+pixel keeps its own label. -/
+theorem C05_gvoronoi_model_nearest (shape : List Nat) (lab : Array Int) (hsz : lab.size = shapeSize shape)
+    (p : List Int) (hp : inside shape p = true)
+    (hlab : ∃ q0, inside shape q0 = true ∧ lab.getD (ravelI shape q0) 0 ≠ 0) :
+    (gvoronoiModel shape lab).length = shapeSize shape ∧
+    ∃ o, inside shape o = true ∧ lab.getD (ravelI shape o) 0 ≠ 0 ∧
+      (gvoronoiModel shape lab).getD (ravelI shape p) 0 = lab.getD (ravelI shape o) 0 ∧
+      (∀ q, inside shape q = true → lab.getD (ravelI shape q) 0 ≠ 0 → sqDist p o ≤ sqDist p q) ∧
+      (lab.getD (ravelI shape p) 0 ≠ 0 → o = p) := by
+  have hbsz : (lab.map fun l => if l == 0 then (1 : Int) else 0).size = shapeSize shape := by
+    rw [Array.size_map]; exact hsz
+  obtain ⟨hin, hl, hne, hmin, hkeep⟩ := C05_gvoronoi_nearest shape lab hsz p hp hlab
+  have hm := (C05_model_eq_coord shape _ hbsz).2
+  obtain ⟨_, hshape0, _, hsize0⟩ := (passes_flat shape shape.length (Nat.le_refl _)
+    (initCoord shape (lab.map fun l => if l == 0 then (1 : Int) else 0)) (initCoord_good shape _)).2
+  have hshape : (distanceCoord shape (lab.map fun l => if l == 0 then (1 : Int) else 0)).2.shape = shape := hshape0
+  have hsize : (distanceCoord shape (lab.map fun l => if l == 0 then (1 : Int) else 0)).2.data.size
+      = shapeSize shape := hsize0
+  have hlen : (gvoronoiModel shape lab).length = shapeSize shape := by
+    unfold gvoronoiModel
+    simp only [List.length_map, Array.length_toList]
+    rw [hm]; exact hsize
+  have hlt : ravelI shape p < shapeSize shape := ravelI_lt shape p hp
+  have hget : (distanceCoord shape (lab.map fun l => if l == 0 then (1 : Int) else 0)).2.getD p 0 =
+      (distanceCoord shape (lab.map fun l => if l == 0 then (1 : Int) else 0)).2.data.getD (ravelI shape p) 0 := by
+    unfold Img.getD
+    rw [hshape, if_pos hp]
+  refine ⟨hlen, _, hin, hne, ?_, hmin, hkeep⟩
+  rw [← hl, hget]
+  unfold gvoronoiModel
+  simp only []
+  rw [hm, List.getD_eq_getElem?_getD, List.getElem?_map, Array.getElem?_toList]
+  have hlt' : ravelI shape p < (distanceCoord shape (lab.map fun l => if l == 0 then (1 : Int) else 0)).2.data.size := by
+    rw [hsize]; exact hlt
+  have hd : (distanceCoord shape (lab.map fun l => if l == 0 then (1 : Int) else 0)).2.data.getD (ravelI shape p) 0
+      = (distanceCoord shape (lab.map fun l => if l == 0 then (1 : Int) else 0)).2.data[ravelI shape p] := by
+    rw [Array.getD_eq_getD_getElem?, Array.getElem?_eq_getElem hlt', Option.getD_some]
+  rw [hd, Array.getElem?_eq_getElem hlt']
+  rfl
+
+/-- non-vacuity: a 2×2×3 label image (rank 3: the per-axis path) and a 1-D one through the model of the code;
+the pixel `(0,0,0)` of the first is at distance² 2 from label 5 at `(0,1,1)` and 3 from label 7 at `(1,1,1)`. -/
+example : gvoronoiModel [2, 2, 3] #[0, 0, 0, 0, 5, 0, 0, 0, 0, 0, 7, 0] = [5, 5, 5, 5, 5, 5, 7, 7, 7, 7, 7, 7] ∧
+    gvoronoiModel [5] #[0, 2, 0, 0, 9] = [2, 2, 2, 9, 9] := by
+  decide +kernel
+example : ∃ o, inside [2, 2, 3] o = true ∧
+    (gvoronoiModel [2, 2, 3] #[0, 0, 0, 0, 5, 0, 0, 0, 0, 0, 7, 0]).getD (ravelI [2, 2, 3] [1, 0, 2]) 0
+      = (#[0, 0, 0, 0, 5, 0, 0, 0, 0, 0, 7, 0] : Array Int).getD (ravelI [2, 2, 3] o) 0 := by
+  obtain ⟨_, o, ho, _, h, _⟩ := C05_gvoronoi_model_nearest [2, 2, 3] #[0, 0, 0, 0, 5, 0, 0, 0, 0, 0, 7, 0] (by decide)
+    [1, 0, 2] (by decide) ⟨[0, 1, 1], by decide, by decide⟩
+  exact ⟨o, ho, h⟩
+
+/-- **C05 (source tie: `distance` and `gvoronoi` reach `_distance.dt` only; nothing reaches `distance_multi`).**
+About `Generated.argLinkTable`, which `translator/links.py` regenerates on every run from the Python sources of
+`/repo` (one row per call of a native entry point in the body of a top-level wrapper): the rows of
+`distance.distance` are exactly two calls of `_distance.dt` (the 2-D call and the call in the per-axis line loop) and
+the rows of `segmentation.gvoronoi` likewise; **no wrapper of the package calls `_morph.distance_multi`** (the inexact
+n-D propagation kernel of the pinned tree: T4–T6 of the design are moot as long as this theorem compiles); the
+transformed array `f` handed to the 2-D call is, textually, `np.zeros(bw.shape, np.double)` in both wrappers — a
+float64 array, so `dist_transform<float>` (the float32 instantiation of the kernel, whose abscissae would be rounded
+to 24 bits) is not reachable from either wrapper and the binary64 analysis (`C05_binary64_image_exact`) is the one that
+applies; `distance` passes `None` for `orig` at both calls. Re-introducing a `distance_multi` call, or building `f`
+with another dtype, makes `lake build` (hence `./check C05`) fail. -/
+theorem C05_wrappers_reach_only_dt :
+    ((Generated.argLinkTable.filter fun e => e.1 == "distance.distance").map fun e => (e.2.1, e.2.2.1))
+      = [("_distance.dt", 0), ("_distance.dt", 1)] ∧
+    ((Generated.argLinkTable.filter fun e => e.1 == "segmentation.gvoronoi").map fun e => (e.2.1, e.2.2.1))
+      = [("_distance.dt", 0), ("_distance.dt", 1)] ∧
+    (Generated.argLinkTable.all fun e => e.2.1 != "_morph.distance_multi") = true ∧
+    Generated.links_distance_distance__distance_dt
+      = [("f", .other "np.zeros(bw.shape, np.double)"), ("orig", .noneLit)] ∧
+    Generated.links_distance_distance__distance_dt_1.getD 1 default = ("orig", .noneLit) ∧
+    Generated.links_segmentation_gvoronoi__distance_dt.getD 0 default
+      = ("f", .other "np.zeros(bw.shape, np.double)") := by
+  decide
+
+/-- **C05 (the integers the repaired kernel forms are exact doubles).** Since `8ed1f44` `dist_transform<double>` takes the
+squares `q*q`, `v[k]*v[k]`, `(q − v[k])²` in `double` (they were 32-bit `int` products: wrong from axis length 46 342 on). For
+every axis of at most `2²⁶` pixels and every sampled function with values in `[0, 2⁵²]` (the fill values of `distance` /
+`gvoronoi` and all intermediate pass values are far below), every integer the kernel computes before the one division —
+the three squares, `f[q] + q²`, `f[v] + v²`, their difference (the numerator of the abscissa) and the read-out value
+`(q − v)² + f[v]` — has magnitude below `2⁵³`, i.e. is an exactly representable double: up to that size the C arithmetic
+agrees with the unbounded integers of the model, and the only rounded operation is the division analysed in
+`C05_binary64_image_exact`. (An `int` index bounds the axis length by `2³¹`; beyond `2²⁶·√2` pixels `q²` itself stops being
+an exact double.) -/
+theorem C05_kernel_integers_below_2p53 (n q v fq fv : Int) (hn : n ≤ 2 ^ 26) (hv : 0 ≤ v) (hvq : v < q) (hq : q < n)
+    (hfq : 0 ≤ fq ∧ fq ≤ 2 ^ 52) (hfv : 0 ≤ fv ∧ fv ≤ 2 ^ 52) :
+    q * q < 2 ^ 52 ∧ v * v < 2 ^ 52 ∧ (q - v) * (q - v) < 2 ^ 52 ∧
+    fq + q * q < 2 ^ 53 ∧ fv + v * v < 2 ^ 53 ∧
+    -(2 ^ 53) < (fq + q * q) - (fv + v * v) ∧ (fq + q * q) - (fv + v * v) < 2 ^ 53 ∧
+    (q - v) * (q - v) + fv < 2 ^ 53 := by
+  have hq0 : 0 ≤ q := by omega
+  have hq26 : q ≤ 2 ^ 26 - 1 := by omega
+  have hv26 : v ≤ 2 ^ 26 - 1 := by omega
+  have hd0 : 0 ≤ q - v := by omega
+  have hd26 : q - v ≤ 2 ^ 26 - 1 := by omega
+  have sq : ∀ x : Int, 0 ≤ x → x ≤ 2 ^ 26 - 1 → x * x < 2 ^ 52 ∧ 0 ≤ x * x := by
+    intro x h0 h1
+    have := Int.mul_le_mul h1 h1 h0 (by norm_num)
+    exact ⟨by norm_num at this ⊢; omega, Int.mul_nonneg h0 h0⟩
+  obtain ⟨a1, a0⟩ := sq q hq0 hq26
+  obtain ⟨b1, b0⟩ := sq v hv hv26
+  obtain ⟨c1, c0⟩ := sq (q - v) hd0 hd26
+  norm_num at *
+  refine ⟨a1, b1, c1, ?_, ?_, ?_, ?_, ?_⟩ <;> omega
+
+/-- non-vacuity: the first axis length at which the old 32-bit products failed, and the largest covered one -/
+example : (46341 : Int) * 46341 > 2 ^ 31 - 1 ∧ (46341 : Int) * 46341 < 2 ^ 52 ∧ ((2 : Int) ^ 26 - 1) * (2 ^ 26 - 1) < 2 ^ 52 := by
+  norm_num
